@@ -400,8 +400,9 @@ def tasks(tier):
                 for kn in KNOTS:
                     d = {'part': 'F', 'fam': fam, 'n': n, 'k': k, 'knots': kn, 'tier': tier}
                     if n == 12:
-                        for z0 in range(4):
-                            t.append(dict(d, maxzero=n, z0=z0, wpats=[0]))
+                        if fam == 'uni' and KNOTS.index(kn) % 2 == 1:
+                            for z0 in range(4):
+                                t.append(dict(d, maxzero=n, z0=z0, wpats=[0]))
                     elif n == 8 or T:
                         t.append(dict(d, maxzero=n, wpats=[0, 1]))
                     else:
@@ -474,7 +475,7 @@ def run_task(task):
         t = np.asarray(s0.breakpoints, dtype=np.float64)
         for z in subsets:
             for wpat in task['wpats']:
-                if wpat == 1 and len(z) > 2 and task.get('tier') != 'thorough':
+                if wpat == 1 and len(z) > (4 if task.get('tier') == 'thorough' else 2):
                     continue
                 w = weights(n, z, wpat)
                 pre = classify(t, k, x, w)
